@@ -512,17 +512,23 @@ impl fmt::Display for MediaPlaylist<'_> {
             // a key that has been written, but does not apply to this segment
             // anymore, can only be revoked with `METHOD=NONE`, which revokes all
             // keys (the keys of this segment are written again below):
-            if segment.keys.iter().any(ExtXKey::is_some)
-                && available_keys.iter().filter_map(ExtXKey::as_ref).any(|old| {
-                    !segment
-                        .keys
-                        .iter()
-                        .filter_map(ExtXKey::as_ref)
-                        .any(|key| key.has_same_format(old))
-                })
-            {
-                available_keys.clear();
-                writeln!(f, "{}", ExtXKey::empty())?;
+            if segment.keys.iter().any(ExtXKey::is_some) {
+                // (an absent `KEYFORMAT` is the identity format)
+                let formats = segment
+                    .keys
+                    .iter()
+                    .filter_map(ExtXKey::as_ref)
+                    .map(|key| key.format.as_ref().unwrap_or(&KeyFormat::Identity))
+                    .collect::<HashSet<_>>();
+
+                if available_keys
+                    .iter()
+                    .filter_map(ExtXKey::as_ref)
+                    .any(|old| !formats.contains(old.format.as_ref().unwrap_or(&KeyFormat::Identity)))
+                {
+                    available_keys.clear();
+                    writeln!(f, "{}", ExtXKey::empty())?;
+                }
             }
 
             for key in &segment.keys {
